@@ -73,6 +73,59 @@ func checkC17(c *Ctx, r *Result, tier string) {
 	}
 	r.Instance("R17-anchor", c.FuncKey(pred), c.Pos(pred.Pos()), "found", "containment predicate", false)
 
+	// confining helpers: functions returning (string, error) whose string, whenever the error is nil,
+	// is the very value the predicate accepted on that path
+	confiners := map[*ssa.Function]bool{}
+	for _, h := range c.ModFuncs() {
+		if h.Parent() != nil || h.Signature.Results().Len() != 2 || h.Signature.Results().At(0).Type().String() != "string" || h.Signature.Results().At(1).Type().String() != "error" {
+			continue
+		}
+		if len(callSites(h, func(_ string, ci ssa.CallInstruction) bool { return ci.Common().StaticCallee() == pred })) == 0 {
+			continue
+		}
+		good, seenOK := true, false
+		ho := &PathOracle{}
+		ho.AtReturn = func(st *PState, ret *ssa.Return) {
+			if len(ret.Results) != 2 || st.Get(ret.Results[1], ho) == AvNonNil {
+				return // error path
+			}
+			if st.Get(ret.Results[1], ho) != AvNil {
+				good = false
+				return
+			}
+			val := st.canon(ret.Results[0])
+			accepted := false
+			allInstrs(h, func(x ssa.Instruction) {
+				pc, ok := x.(*ssa.Call)
+				if !ok || pc.Call.StaticCallee() != pred || st.canon(pc.Call.Args[1]) != val {
+					return
+				}
+				var okV, errV ssa.Value
+				for _, ref := range *pc.Referrers() {
+					if e, isE := ref.(*ssa.Extract); isE {
+						if e.Index == 0 {
+							okV = e
+						} else {
+							errV = e
+						}
+					}
+				}
+				if okV != nil && errV != nil && st.Get(okV, ho) == AvNonNil && st.Get(errV, ho) == AvNil {
+					accepted = true
+				}
+			})
+			if accepted {
+				seenOK = true
+			} else {
+				good = false
+			}
+		}
+		if ExplorePaths(h, ho) && good && seenOK {
+			confiners[h] = true
+			r.Instance("R17a", c.FuncKey(h)+"#confines", c.Pos(h.Pos()), "ok", "whenever it returns a nil error, the returned path is the value the containment predicate accepted on that path", true)
+		}
+	}
+
 	// ---- R17a -----------------------------------------------------------------------------------
 	nFile := 0
 	for _, impl := range impls {
@@ -104,6 +157,20 @@ func checkC17(c *Ctx, r *Result, tier string) {
 				// find a predicate call on this function whose sub argument is this value and whose results are (true, nil)
 				found := false
 				why := "the path was never handed to the containment predicate"
+				// the result of a confining helper, on a path where its error is nil
+				if e, isE := path.(*ssa.Extract); isE && e.Index == 0 {
+					if hc, isCall := e.Tuple.(*ssa.Call); isCall && hc.Call.StaticCallee() != nil && confiners[hc.Call.StaticCallee()] {
+						for _, ref := range *hc.Referrers() {
+							if e1, ok := ref.(*ssa.Extract); ok && e1.Index == 1 {
+								if st.Get(e1, o) == AvNil {
+									found = true
+								} else {
+									why = "reached on a path where the error of " + hc.Call.StaticCallee().Name() + "() is not known to be nil"
+								}
+							}
+						}
+					}
+				}
 				allInstrs(fn, func(x ssa.Instruction) {
 					pc, ok := x.(*ssa.Call)
 					if !ok || pc.Call.StaticCallee() != pred || !dominates(pc, in) {
